@@ -490,6 +490,19 @@ def r6_transport_agreement(ctx):
         R.check(v[2] == (91, 123), "C01.R6", "sniffer:%s:start-bytes" % k, "%s accepts `{` and `[`" % k, "%s start bytes are %s, expected (91, 123)" % (k, v[2]), None)
 
 
+def r8_classifiers_are_plain(ctx):
+    """Request / Notification / InvalidRequest are tried in turn: each must be the plain derived decoder"""
+    from .common import wire_decoders_plain
+    wire_decoders_plain(ctx, "C01.R8", (("Request", r"jsonrpsee_types::request::Request<'a>"), ("Notification", r"jsonrpsee_types::request::Notification<'a, T>"), ("InvalidRequest", r"jsonrpsee_types::request::InvalidRequest<'a>")), 3)
+
+
+def r9_params_whitespace(ctx):
+    """a valid request is answered with the handler's result for exactly its params, however the client spaces them:
+    the positional decoder every generated handler uses tolerates whitespace around `,` and `]` (= C16.WS)"""
+    from . import c16
+    c16.rws_separator_sees_no_whitespace(ctx, "C01.R9")
+
+
 DESER_CTOR = r"^serde_json::Deserializer::<.*>::(from_slice|from_str|from_reader|new)$|^serde_json::de::Deserializer::<.*>::(from_slice|from_str|from_reader|new)$"
 DESER_END = r"^serde_json::(de::)?Deserializer::<.*>::end$"
 WRAPPERS = r"^jsonrpsee_server::utils::deserialize_with_ext::(call|notif)::(from_slice|from_str)$"
@@ -564,7 +577,7 @@ def control_hand_driven(ctx):
 CONTROLS = [control_hand_driven]
 
 
-RULES = [r1_id_echo, r1b_handler_args, r2_classify_once, r3_ws_reply_once, r4_invocation_authority, r5_failure_classes, r6_transport_agreement, r7_whole_message]
+RULES = [r1_id_echo, r1b_handler_args, r2_classify_once, r3_ws_reply_once, r4_invocation_authority, r5_failure_classes, r6_transport_agreement, r7_whole_message, r8_classifiers_are_plain, r9_params_whitespace]
 
 LEVEL_TEXT = (
     "Structural necessary conditions of the request/reply contract decided from the type-checked program for every "
